@@ -70,6 +70,10 @@ func ScenarioByName(name string) *Scenario {
 		sc = Join(arg(1), arg(2), arg(3))
 	case "leave":
 		sc = Leave(arg(1), arg(2), arg(3))
+	case "twoleaves":
+		sc = TwoLeaves(arg(1), arg(2), arg(3))
+	case "joinleave":
+		sc = JoinLeave(arg(1), arg(2), arg(3))
 	case "s1":
 		sc = S1Scenario(arg(1), arg(2))
 	case "win":
